@@ -250,4 +250,392 @@ theorem executeAll_sums : ∀ {jobs : List FileJob} {outs : List (List Res × St
         obtain ⟨rs', st', g1, g2⟩ := i4 k hk
         exact ⟨rs', st', by simpa using g1, by simpa using g2⟩
 
+/-! ### simulation: fresh definition objects vs. objects carrying state -/
+
+/-- two computations fail with the same error or succeed with related values -/
+def ExRel {α β : Type} (R : α → β → Prop) : Except Err α → Except Err β → Prop
+  | .ok a, .ok b => R a b
+  | .error e, .error e' => e = e'
+  | _, _ => False
+
+theorem ExRel.bind {α β α' β' : Type} {R : α → β → Prop} {S : α' → β' → Prop}
+    {x : Except Err α} {y : Except Err β} {f : α → Except Err α'} {g : β → Except Err β'}
+    (h : ExRel R x y) (hf : ∀ a b, R a b → ExRel S (f a) (g b)) : ExRel S (x >>= f) (y >>= g) := by
+  cases x <;> cases y <;> simp only [ExRel] at h
+  · subst h; simp [Bind.bind, Except.bind, ExRel]
+  · simp only [Bind.bind, Except.bind]; exact hf _ _ h
+
+theorem ExRel.pure {α β : Type} {R : α → β → Prop} {a : α} {b : β} (h : R a b) :
+    ExRel R (Pure.pure a : Except Err α) (Pure.pure b) := h
+
+theorem ExRel.ok {α β : Type} {R : α → β → Prop} {a : α} {b : β} (h : R a b) :
+    ExRel R (.ok a : Except Err α) (.ok b) := h
+
+theorem ExRel.mono {α β : Type} {R S : α → β → Prop} {x : Except Err α} {y : Except Err β}
+    (h : ExRel R x y) (hrs : ∀ a b, R a b → S a b) : ExRel S x y := by
+  cases x <;> cases y <;> simp only [ExRel] at h ⊢
+  · exact h
+  · exact hrs _ _ h
+
+theorem ExRel.map_eq {α β : Type} {f : α → β} {x : Except Err α} {y : Except Err β}
+    (h : ExRel (fun a b => b = f a) x y) : y = x.map f := by
+  cases x <;> cases y <;> simp only [ExRel] at h
+  · subst h; rfl
+  · subst h; rfl
+
+variable (p : Nat → SeqPersist)
+
+theorem shiftSec_none {r : Res} (h : r.sec = none) : shiftSec p r = r := by
+  cases r; simp_all [shiftSec]
+
+theorem shiftSec_some {r : Res} {id k : Nat} (h : r.sec = some (id, k)) :
+    (shiftSec p r).sec = some (id, k + (p id).cnt) := by
+  simp [shiftSec, h]
+
+theorem mkSeqRes_rel {id : Nat} {s : SeqDef} {sfx : String} {sd : SDef} {ln sec sec' : Nat} {m : Match}
+    (h : sec' = sec + (p id).cnt) :
+    ExRel (fun r r' => r' = shiftSec p r ∧ r.sec = some (id, sec))
+      (mkSeqRes id s sfx sd ln sec m) (mkSeqRes id s sfx sd ln sec' m) := by
+  subst h
+  unfold mkSeqRes
+  cases mkParts sd m with
+  | error e => simp [Bind.bind, Except.bind, ExRel]
+  | ok ps => simp [Bind.bind, Except.bind, ExRel, Pure.pure, Except.pure, shiftSec]
+
+theorem mkSimpleRes_sec {id sd ln m r} (h : mkSimpleRes id sd ln m = .ok r) : r.sec = none := by
+  simp only [mkSimpleRes, bind_ok, pure_ok] at h
+  obtain ⟨ps, _, rfl⟩ := h; rfl
+
+/-- per-definition simulation relation (`st` fresh run, `st'` run from carried state) -/
+structure Rel (id : Nat) (st st' : DSt) : Prop where
+  runnable : st'.runnable = st.runnable
+  started : st'.started = st.started
+  cnt : st'.cnt = st.cnt + (p id).cnt
+  sec : st.started = true → st'.sec = st.sec + (p id).cnt
+  seqRes : st'.seqRes = st.seqRes.map (shiftSec p)
+  everAdded : st'.everAdded = st.everAdded
+  secInv : ∀ r ∈ st.seqRes, ∃ k, r.sec = some (id, k)
+
+theorem filter_shift {id sec : Nat} : ∀ (l : List Res), (∀ r ∈ l, ∃ k, r.sec = some (id, k)) →
+    (l.map (shiftSec p)).filter (fun r => r.sec != some (id, sec + (p id).cnt))
+      = (l.filter (fun r => r.sec != some (id, sec))).map (shiftSec p)
+  | [], _ => rfl
+  | r :: rs, h => by
+    obtain ⟨k, hk⟩ := h r (by simp)
+    have ih := filter_shift (id := id) (sec := sec) rs (fun x hx => h x (by simp [hx]))
+    simp only [List.map_cons, List.filter_cons, shiftSec_some p hk, hk, ih]
+    by_cases hks : k = sec
+    · subst hks; simp
+    · have : k + (p id).cnt ≠ sec + (p id).cnt := by omega
+      simp [hks]
+
+theorem push_rel {id : Nat} {s : SeqDef} {sfx : String} {sd : SDef} {ln k k' : Nat} {m : Match}
+    {mk mk' : Res → DSt} (hk : k' = k + (p id).cnt)
+    (h : ∀ r, r.sec = some (id, k) → Rel p id (mk r) (mk' (shiftSec p r))) :
+    ExRel (Rel p id) (mkSeqRes id s sfx sd ln k m >>= fun r => pure (mk r))
+      (mkSeqRes id s sfx sd ln k' m >>= fun r => pure (mk' r)) := by
+  refine ExRel.bind (mkSeqRes_rel p hk) ?_
+  rintro r r' ⟨rfl, hr⟩
+  exact ExRel.pure (h r hr)
+
+theorem mem_snoc_inv {id : Nat} {l : List Res} {r : Res} {k : Nat}
+    (h7 : ∀ r ∈ l, ∃ k, r.sec = some (id, k)) (hr : r.sec = some (id, k)) :
+    ∀ x ∈ l ++ [r], ∃ k, x.sec = some (id, k) := by
+  intro x hx
+  simp only [List.mem_append, List.mem_singleton] at hx
+  rcases hx with h | rfl
+  · exact h7 _ h
+  · exact ⟨_, hr⟩
+
+theorem mem_filter_inv {id : Nat} {l : List Res} {q : Res → Bool}
+    (h7 : ∀ r ∈ l, ∃ k, r.sec = some (id, k)) :
+    ∀ x ∈ l.filter q, ∃ k, x.sec = some (id, k) :=
+  fun x hx => h7 x (List.mem_filter.mp hx).1
+
+theorem seqStep_rel {id : Nat} {s : SeqDef} {i : Nat} {st st' : DSt} (hr : Rel p id st st') :
+    ExRel (Rel p id) (seqStep id s i st) (seqStep id s i st') := by
+  obtain ⟨h1, h2, h3, h4, h5, h6, h7⟩ := hr
+  obtain ⟨run, started, cnt, sec, seqRes, ever⟩ := st
+  obtain ⟨run', started', cnt', sec', seqRes', ever'⟩ := st'
+  simp only at h1 h2 h3 h4 h5 h6 h7
+  subst h1 h2 h3 h5 h6
+  unfold seqStep
+  cases hE : s.end_ <;> cases started' <;> cases hR : s.start.run i <;>
+    simp only [Option.isSome, if_true, if_false, Bool.false_eq_true, Bool.not_true, Bool.not_false]
+  case none.false.none =>
+    exact ExRel.pure ⟨rfl, rfl, rfl, (fun h => by cases h), rfl, rfl, h7⟩
+  case some.false.none =>
+    exact ExRel.pure ⟨rfl, rfl, rfl, (fun h => by cases h), rfl, rfl, h7⟩
+  case none.false.some =>
+    refine push_rel p rfl ?_
+    intro r hr
+    exact ⟨rfl, rfl, by simp only; omega, fun _ => rfl, by simp, rfl, mem_snoc_inv h7 hr⟩
+  case some.false.some =>
+    refine push_rel p rfl ?_
+    intro r hr
+    exact ⟨rfl, rfl, by simp only; omega, fun _ => rfl, by simp, rfl, mem_snoc_inv h7 hr⟩
+  case none.true.some =>
+    refine push_rel p (by omega) ?_
+    intro r hr
+    exact ⟨rfl, rfl, by simp only; omega, fun _ => by simp only; omega, by simp, rfl,
+      mem_snoc_inv h7 hr⟩
+  case some.true.some =>
+    have h4 := h4 rfl
+    subst h4
+    refine push_rel p rfl ?_
+    intro r hr
+    exact ⟨rfl, rfl, by simp only; omega, fun _ => rfl, by simp [filter_shift p _ h7], rfl,
+      mem_snoc_inv (mem_filter_inv h7) hr⟩
+  case none.true.none =>
+    have h4 := h4 rfl
+    subst h4
+    cases s.body with
+    | none => exact ExRel.pure ⟨rfl, rfl, rfl, fun _ => rfl, rfl, rfl, h7⟩
+    | some b =>
+      simp only
+      cases b.run i with
+      | none => exact ExRel.pure ⟨rfl, rfl, rfl, fun _ => rfl, rfl, rfl, h7⟩
+      | some m =>
+        refine push_rel p rfl ?_
+        intro r hr
+        exact ⟨rfl, rfl, rfl, fun _ => rfl, by simp, rfl, mem_snoc_inv h7 hr⟩
+  case some.true.none e =>
+    have h4 := h4 rfl
+    subst h4
+    cases e.run i with
+    | some m =>
+      refine push_rel p rfl ?_
+      intro r hr
+      exact ⟨rfl, rfl, by simp only; omega, (fun h => by cases h), by simp, rfl, mem_snoc_inv h7 hr⟩
+    | none =>
+      simp only
+      cases s.body with
+      | none => exact ExRel.pure ⟨rfl, rfl, rfl, fun _ => rfl, rfl, rfl, h7⟩
+      | some b =>
+        simp only
+        cases b.run i with
+        | none => exact ExRel.pure ⟨rfl, rfl, rfl, fun _ => rfl, rfl, rfl, h7⟩
+        | some m =>
+          refine push_rel p rfl ?_
+          intro r hr
+          exact ⟨rfl, rfl, rfl, fun _ => rfl, by simp, rfl, mem_snoc_inv h7 hr⟩
+
+theorem Rel.setRunnable {id : Nat} {st st' : DSt} (h : Rel p id st st') (b : Bool) :
+    Rel p id { st with runnable := b } { st' with runnable := b } :=
+  ⟨rfl, h.started, h.cnt, h.sec, h.seqRes, h.everAdded, h.secInv⟩
+
+theorem gate_rel {i : Nat} {d : Def} {st st' : DSt} (h : Rel p d.id st st') :
+    (gate i d st = none ∧ gate i d st' = none) ∨
+      ∃ g g', gate i d st = some g ∧ gate i d st' = some g' ∧ Rel p d.id g g' := by
+  unfold gate
+  rw [h.runnable]
+  cases st.runnable with
+  | true => exact Or.inr ⟨st, st', by simp, by simp, h⟩
+  | false =>
+    simp only [Bool.false_eq_true, if_false]
+    cases (applySingle (d.cons.map fun c => c i)) with
+    | mk valid allp =>
+      cases valid with
+      | false => exact Or.inl ⟨by simp, by simp⟩
+      | true => exact Or.inr ⟨_, _, by simp, by simp, h.setRunnable p allp⟩
+
+/-- relation between the outputs of one definition on one line -/
+def StepRel (id : Nat) (a b : DSt × List Res) : Prop :=
+  Rel p id a.1 b.1 ∧ b.2 = a.2.map (shiftSec p)
+
+theorem defBody_rel {i : Nat} {d : Def} {st st' : DSt} (h : Rel p d.id st st') :
+    ExRel (StepRel p d.id) (defBody i d st) (defBody i d st') := by
+  unfold defBody
+  cases d.kind with
+  | simple sd =>
+    simp only
+    cases sd.run i with
+    | none => exact ExRel.pure ⟨h, rfl⟩
+    | some m =>
+      simp only
+      cases hm : mkSimpleRes d.id sd (i + 1) m with
+      | error e => simp [Bind.bind, Except.bind, ExRel]
+      | ok r =>
+        simp only [Bind.bind, Except.bind]
+        refine ExRel.pure ⟨h, ?_⟩
+        simp [shiftSec_none p (mkSimpleRes_sec hm)]
+  | seq s =>
+    simp only
+    refine ExRel.bind (seqStep_rel p h) ?_
+    intro a b hab
+    exact ExRel.pure ⟨hab, rfl⟩
+
+theorem defStep_rel {i : Nat} {d : Def} {st st' : DSt} (h : Rel p d.id st st') :
+    ExRel (StepRel p d.id) (defStep i d st) (defStep i d st') := by
+  rw [defStep_eq, defStep_eq]
+  rcases gate_rel p (i := i) h with ⟨h1, h2⟩ | ⟨g, g', h1, h2, h3⟩
+  · rw [h1, h2]; exact ExRel.pure ⟨h, rfl⟩
+  · rw [h1, h2]; exact defBody_rel p h3
+
+/-- aligned state lists related definition by definition -/
+def AllRel : List Def → List DSt → List DSt → Prop
+  | d :: ds, st :: sts, st' :: sts' => Rel p d.id st st' ∧ AllRel ds sts sts'
+  | _ :: _, [], [] => True
+  | [], _, _ => True
+  | _, _, _ => False
+
+def StepsRel (defs : List Def) (a b : List DSt × List Res × List Nat) : Prop :=
+  AllRel p defs a.1 b.1 ∧ b.2.1 = a.2.1.map (shiftSec p) ∧ b.2.2 = a.2.2
+
+theorem defsStep_rel {i : Nat} : ∀ {defs : List Def} {sts sts' : List DSt}, AllRel p defs sts sts' →
+    ExRel (StepsRel p defs) (defsStep i defs sts) (defsStep i defs sts')
+  | [], _, _, _ => by
+    simp only [defsStep]
+    exact ExRel.pure ⟨by simp [AllRel], rfl, rfl⟩
+  | _ :: _, [], [], _ => by
+    simp only [defsStep]
+    exact ExRel.pure ⟨by simp [AllRel], rfl, rfl⟩
+  | _ :: _, [], _ :: _, h => by simp [AllRel] at h
+  | _ :: _, _ :: _, [], h => by simp [AllRel] at h
+  | d :: ds, st :: sts, st' :: sts', h => by
+    simp only [AllRel] at h
+    simp only [defsStep]
+    refine ExRel.bind (defStep_rel p (i := i) h.1) ?_
+    rintro ⟨a1, o1⟩ ⟨b1, o1'⟩ ⟨hab, ho⟩
+    simp only at hab ho
+    subst ho
+    refine ExRel.bind (defsStep_rel (i := i) h.2) ?_
+    rintro ⟨as, os, od⟩ ⟨bs, os', od'⟩ ⟨habs, hos, hod⟩
+    simp only at habs hos hod
+    subst hos hod
+    refine ExRel.pure ⟨?_, ?_, ?_⟩
+    · simp only [AllRel]; exact ⟨hab, habs⟩
+    · simp
+    · simp only [hab.everAdded, h.1.everAdded]
+
+def LRel (defs : List Def) (a b : LSt) : Prop :=
+  AllRel p defs a.sts b.sts ∧ b.simple = a.simple.map (shiftSec p) ∧ b.order = a.order
+
+theorem lineStep_rel {dec : Nat → Bool} {defs : List Def} {a b : LSt} (i : Nat)
+    (h : LRel p defs a b) : ExRel (LRel p defs) (lineStep dec defs a i) (lineStep dec defs b i) := by
+  unfold lineStep
+  cases dec i with
+  | false => simp [ExRel]
+  | true =>
+    simp only [Bool.not_true, Bool.false_eq_true, if_false]
+    refine ExRel.bind (defsStep_rel p (i := i) h.1) ?_
+    rintro ⟨as, os, od⟩ ⟨bs, os', od'⟩ ⟨habs, hos, hod⟩
+    simp only at habs hos hod
+    subst hos hod
+    exact ExRel.pure ⟨habs, by simp [h.2.1], by simp [h.2.2]⟩
+
+theorem linesLoop_rel {dec : Nat → Bool} {defs : List Def} : ∀ (is : List Nat) {a b : LSt},
+    LRel p defs a b → ExRel (LRel p defs) (linesLoop dec defs a is) (linesLoop dec defs b is)
+  | [], _, _, h => by
+    simp only [linesLoop]; exact ExRel.pure h
+  | i :: is, _, _, h => by
+    simp only [linesLoop]
+    exact ExRel.bind (lineStep_rel p i h) (fun _ _ h' => linesLoop_rel is h')
+
+theorem eofDef_rel {n : Nat} {d : Def} {st st' : DSt} (h : Rel p d.id st st') :
+    ExRel (fun a b => b = a.map (shiftSec p)) (eofDef n d st) (eofDef n d st') := by
+  unfold eofDef
+  cases d.kind with
+  | simple sd => exact ExRel.pure rfl
+  | seq s =>
+    simp only [h.started]
+    cases hS : st.started with
+    | false => exact ExRel.pure h.seqRes
+    | true =>
+      simp only [if_true]
+      have hsec := h.sec hS
+      cases s.end_ with
+      | none => exact ExRel.pure h.seqRes
+      | some e =>
+        simp only
+        cases e.emptyRes with
+        | none =>
+          refine ExRel.pure ?_
+          rw [h.seqRes, hsec, filter_shift p _ h.secInv]
+        | some m =>
+          simp only
+          refine ExRel.bind (mkSeqRes_rel p hsec) ?_
+          rintro r r' ⟨rfl, _⟩
+          refine ExRel.pure ?_
+          simp [h.seqRes]
+
+def shiftFinals (fs : List (Nat × List Res)) : List (Nat × List Res) :=
+  fs.map fun x => (x.1, x.2.map (shiftSec p))
+
+theorem eofAll_rel {n : Nat} : ∀ {defs : List Def} {sts sts' : List DSt}, AllRel p defs sts sts' →
+    ExRel (fun a b => b = shiftFinals p a) (eofAll n defs sts) (eofAll n defs sts')
+  | [], _, _, _ => by
+    simp only [eofAll]; exact ExRel.pure rfl
+  | _ :: _, [], [], _ => by
+    simp only [eofAll]; exact ExRel.pure rfl
+  | _ :: _, [], _ :: _, h => by simp [AllRel] at h
+  | _ :: _, _ :: _, [], h => by simp [AllRel] at h
+  | d :: ds, st :: sts, st' :: sts', h => by
+    simp only [AllRel] at h
+    simp only [eofAll]
+    refine ExRel.bind (eofDef_rel p (n := n) h.1) ?_
+    rintro r r' rfl
+    refine ExRel.bind (eofAll_rel (n := n) h.2) ?_
+    rintro rs rs' rfl
+    exact ExRel.pure (by simp [shiftFinals])
+
+theorem lookup_shiftFinals (id : Nat) : ∀ (fs : List (Nat × List Res)),
+    ((shiftFinals p fs).lookup id).getD [] = ((fs.lookup id).getD []).map (shiftSec p)
+  | [] => by simp [shiftFinals]
+  | (k, rs) :: fs => by
+    have ih := lookup_shiftFinals id fs
+    simp only [shiftFinals, List.map_cons, List.lookup_cons] at ih ⊢
+    cases id == k <;> simp [ih]
+
+theorem flatMap_shiftFinals (fs : List (Nat × List Res)) : ∀ (order : List Nat),
+    order.flatMap (fun id => ((shiftFinals p fs).lookup id).getD [])
+      = (order.flatMap (fun id => (fs.lookup id).getD [])).map (shiftSec p)
+  | [] => rfl
+  | x :: xs => by
+    have ih := flatMap_shiftFinals fs xs
+    rw [List.flatMap_cons, List.flatMap_cons, List.map_append, ih, lookup_shiftFinals]
+
+theorem Rel.init (d : Def) : Rel p d.id (DSt.init d) (DSt.initFrom p d) :=
+  ⟨rfl, rfl, by simp [DSt.init, DSt.initFrom], by simp [DSt.init], rfl, rfl, by simp [DSt.init]⟩
+
+theorem AllRel.init : ∀ (defs : List Def), AllRel p defs (defs.map DSt.init) (defs.map (DSt.initFrom p))
+  | [] => by simp [AllRel]
+  | d :: ds => by
+    simp only [List.map_cons, AllRel]
+    exact ⟨Rel.init p d, AllRel.init ds⟩
+
+theorem runTaskFrom_rel (t : TaskIn) :
+    ExRel (fun a b => b = (a.1.map (shiftSec p), a.2)) (runTask t) (runTaskFrom p t) := by
+  unfold runTask runTaskFrom
+  refine ExRel.bind (linesLoop_rel p (List.range t.n) (a := { sts := _ }) (b := { sts := _ })
+    ⟨AllRel.init p _, rfl, rfl⟩) ?_
+  rintro ls ls' ⟨h1, h2, h3⟩
+  refine ExRel.bind (eofAll_rel p (n := t.n) h1) ?_
+  rintro fs fs' rfl
+  refine ExRel.pure ?_
+  simp only [h2, h3, flatMap_shiftFinals, List.map_append, List.length_append, List.length_map]
+
+theorem shiftSec_sec_inj {r1 r2 : Res} :
+    (shiftSec p r1).sec = (shiftSec p r2).sec ↔ r1.sec = r2.sec := by
+  constructor
+  · intro h
+    simp only [shiftSec] at h
+    cases h1 : r1.sec with
+    | none =>
+      cases h2 : r2.sec with
+      | none => rfl
+      | some b => simp [h1, h2] at h
+    | some a =>
+      cases h2 : r2.sec with
+      | none => simp [h1, h2] at h
+      | some b =>
+        obtain ⟨a1, a2⟩ := a
+        obtain ⟨b1, b2⟩ := b
+        simp only [h1, h2, Option.map_some, Option.some.injEq, Prod.mk.injEq] at h
+        obtain ⟨rfl, h⟩ := h
+        have : a2 = b2 := by omega
+        rw [this]
+  · intro h
+    simp only [shiftSec, h]
+
 end Sk.Run
